@@ -36,7 +36,7 @@ theorem print_read (t : NumType) (n : Nat) : radixValue (baseOf t) (basedDigits 
 theorem printBased_nat (n : Nat) (t : NumType) (ht : t = .binary ∨ t = .octal ∨ t = .hex) :
     printBased ((n : Int) : Rat) t =
       (match t with | .binary => "0b" | .octal => "0o" | _ => "0x") ++ String.ofList (basedDigits t n) := by
-  have h1 : Num.toInt (Num.trunc ((n : Int) : Rat)) = (n : Int) := by rw [trunc_natCast, toInt_natCast]
+  have h1 : Num.truncInt ((n : Int) : Rat) = (n : Int) := truncInt_natCast n
   rcases ht with rfl | rfl | rfl <;> simp [printBased, h1, lt_zero_natCast, basedDigits]
 
 /-- reading accepts lower-case hex digits with the same value as upper-case ones -/
